@@ -506,6 +506,7 @@ def _constraint_association_gain(
         counters[i] += 1
     leftclose[:] = counters[:] - ave
     leftclose[leftclose < 0] = 0
+    leftclose[leftclose > 1] = 1
     nover = X.shape[0] - ave * counters.shape[0]
     sumi = nover - leftclose.sum()
     if sumi != 0:
@@ -514,11 +515,11 @@ def _constraint_association_gain(
 
         def loopf(h, sumi):
             if sumi < 0 and leftclose[h] > 0:
-                sumi -= leftclose[h]
+                sumi += leftclose[h]
                 leftclose[h] = 0
             elif sumi > 0 and leftclose[h] == 0:
                 leftclose[h] = 1
-                sumi += 1
+                sumi -= 1
             return sumi
 
         it = 0
@@ -578,6 +579,21 @@ def _constraint_association_gain(
                     transfer[cur, dest] = []
                 gain = sorted_distances[i, 3]
                 bisect.insort(transfer[cur, dest], (gain, ind))
+
+    # Points moved by a swap cannot move again in the loop above, a cluster
+    # holding such points may still exceed its quota: a last pass enforces it.
+    for i in range(0, sorted_distances.shape[0]):
+        ind = int(sorted_distances[i, 1])
+        dest = int(sorted_distances[i, 2])
+        cur = labels[ind]
+        if (
+            cur != dest
+            and counters[dest] < ave + leftclose[dest]
+            and counters[cur] > ave + leftclose[cur]
+        ):
+            labels[ind] = dest
+            counters[cur] -= 1
+            counters[dest] += 1
 
     neg = (counters < ave).sum()
     assert neg <= 0, f"The algorithm failed, counters={counters}"
